@@ -665,6 +665,41 @@ func (w *World) Sync(f func()) bool {
 	}
 }
 
+// Quiet reports whether nothing is in flight: no system goroutine waits at a
+// gate (callers parked at read gates do not count), no bytes or notifications
+// are under way.
+func (w *World) Quiet() bool {
+	w.mu.Lock()
+	for _, g := range w.gates {
+		if g.Class != "read" {
+			w.mu.Unlock()
+			return false
+		}
+	}
+	w.mu.Unlock()
+	if w.Net != nil {
+		f := w.Net
+		f.mu.Lock()
+		defer f.mu.Unlock()
+		if len(f.pending) > 0 {
+			return false
+		}
+		for _, s := range f.streams {
+			s.mu.Lock()
+			n := len(s.inflight)
+			if n == 1 && s.inflight[0] == nil {
+				n = 0 // only the EOF marker
+			}
+			r := s.reset
+			s.mu.Unlock()
+			if n > 0 && !r {
+				return false
+			}
+		}
+	}
+	return true
+}
+
 // YieldParked reports whether a goroutine of the node is held at an internal yield.
 func (w *World) YieldParked(node string) bool {
 	w.mu.Lock()
